@@ -109,12 +109,16 @@ def analyse(f):
             return 'IForeign', ('foreign', type(e).__name__), 'the parser raised a foreign exception %s' % type(e).__name__
     finally:
         signal.alarm(0)
-    shape, leaves = [], []
+    shape, leaves, bad = [], [], []
 
     def walk(t):
         if type(t) in nt_idx:
             sig = [type(v) for v in t.value]
-            alt = next(i for i, s in enumerate(type(t).get_token_sets()) if list(s) == sig)
+            alt = next((i for i, s in enumerate(type(t).get_token_sets()) if list(s) == sig), None)
+            if alt is None:
+                # the accepted tree contains a node whose children instantiate none of the token sets of its class
+                bad.append('%s(%s)' % (type(t).__name__, ', '.join(x.__name__ for x in sig)))
+                alt = 99
             shape.append((nt_idx[type(t)], alt))
             for v in t.value:
                 walk(v)
@@ -122,7 +126,9 @@ def analyse(f):
             leaves.append(t)
     walk(tree)
     fail = None
-    if len(leaves) != len(toks) or any(a is not b for a, b in zip(leaves, toks)):
+    if bad:
+        fail = 'accepted, but the tree has a node that matches none of the token sets of its class: %s' % bad[0]
+    elif len(leaves) != len(toks) or any(a is not b for a, b in zip(leaves, toks)):
         fail = 'accepted, but the tree covers %d of %d tokens' % (len(leaves), len(toks))
     term = '(IParsed %s %s)' % (cl, C.clist(['(%d%%nat, %d%%nat)' % p for p in shape]))
     return term, ('parsed', tuple(classes), tuple(shape)), fail
